@@ -419,7 +419,8 @@ def tasks(tier, seed):
     per = 320 if tier == "quick" else 2000
     for b in bases:
         t.append(("faults", {"base": b, "n": per, "seed": derive_seed(seed, "c17", b)}))
-        t.append(("member_sweep", {"base": b}))
+        t.append(("member_sweep", {"base": b, "part": 0}))
+        t.append(("member_sweep", {"base": b, "part": 1}))
     for k in range(2 if tier == "quick" else 16):
         t.append(("generated", {"n": 2 if tier == "quick" else 8, "per": 60 if tier == "quick" else 300, "seed": derive_seed(seed, "c17g", k)}))
     return t
@@ -440,7 +441,7 @@ def run_task(ctx, lane, **kw):
         base_bytes = load_base({"base": kw["base"]})
         infos, _ = zip_layout(base_bytes)
         for name in [i[0] for i in infos if i[0].endswith((".iwa", ".plist"))]:
-            for mkind in MEMBER_FAULTS:
+            for mkind in MEMBER_FAULTS[kw.get("part", 0)::2] if "part" in kw else MEMBER_FAULTS:
                 f = {"kind": "member", "mkind": mkind, "member": name, "salt": 3, "n": 2, "keep": False, "at": 17, "delta": 0, "value": 1, "how": "plus"}
                 if name.endswith(".plist") and mkind not in ("empty", "garble", "short", "truncate"):
                     continue
